@@ -59,6 +59,11 @@ def build_go(name, pkg, tags=None, race=False):
     The module replaces github.com/wneessen/go-mail by /repo, so the working tree is what is built."""
     os.makedirs(BIN, exist_ok=True)
     shutil.copyfile(os.path.join(REPO, "go.sum"), os.path.join(HARNESS, "go.sum"))
+    gm = os.path.join(HARNESS, "go.mod")
+    txt = open(gm).read()
+    new = re.sub(r"replace github.com/wneessen/go-mail => \S+", "replace github.com/wneessen/go-mail => " + REPO, txt)
+    if new != txt:
+        open(gm, "w").write(new)
     cmd = ["go", "build"]
     if tags:
         cmd += ["-tags", tags]
